@@ -1,6 +1,7 @@
 import Qentem.Proofs.ExprEval
 import Qentem.Proofs.ExprScanWf
 import Qentem.Proofs.ExprScanTotal
+import Qentem.Proofs.ExprScanPrint
 import Qentem.Generated.Expr
 /-!
 # C04 — expression evaluation equals exact arithmetic with the documented precedence
@@ -17,8 +18,11 @@ Theorems (all kernel-checked, `R` = any real carrier, in particular `Rat` = exac
 * `equality_rule_*`
 * `scan_wf`, `scan_then_evaluate`  the scanner returns a well-formed list (or nothing), so the main
                                 theorem applies to every expression text inside a tag.
-* `ScanPrint` (statement, open) scanner ∘ printer = flatten; exercised by the correspondence
-                                streams, not proved.
+* `scan_print_items`, `scan_print`  scanner ∘ printer = identity on flat lists / = `flatten` on trees,
+                                for numeric leaves, all sixteen operators, parentheses at any depth
+                                (`ScanPrint` proved for that printer; var/text leaves, signed
+                                literals and other spacings: still decided by the correspondence
+                                streams).
 -/
 namespace Qentem.Props.C04
 open Qentem.Expr Qentem.Generated.Expr
@@ -454,14 +458,62 @@ theorem scan_then_evaluate_total {R : Type} [RealLike R] (cfg : ScanCfg R) (env 
   rw [h] at this
   exact ⟨items, h, this⟩
 
-/-! ### Scanner: statement only (S) -/
+/-! ### Scanner ∘ printer -/
 
-/-- `scan_print`: scanning the printed form of a tree gives its flat list.  `printer` is any
-printing of trees with arbitrary spaces around operators and parentheses whose literals are read
-back by `readNum`.  Not proved; the correspondence streams run the C++ scanner, the model scanner
-and the generator's own structure against each other. -/
+/-- `ScanPrint`, general form kept as a statement: scanning the printed form of a tree gives its
+flat list, for a printer with arbitrary spacing and all leaf kinds.  `scan_print` below proves it
+for the canonical printer over numeric leaves; the correspondence streams run the C++ scanner, the
+model scanner and the generator's own structure against each other for the rest. -/
 def ScanPrint {R : Type} (cfg : ScanCfg R) (printer : Tree R → List Nat) (sameItems : List (Item R) → List (Item R) → Prop) : Prop :=
   ∀ t : Tree R, ∃ items, parseTop cfg (printer t) 0 (printer t).length = .ok items ∧
     sameItems items (flatten t)
+
+/-- scanner ∘ printer = identity on flat lists.  `printItems lit`: the operands in order, one space,
+the operator's spelling, one space between them, `(`…`)` around sub-lists, literals written by `lit`.
+Class `pokItems Pn`: every leaf is a number `n` with `Pn n` whose printed literal is read back by
+the number reader, consists of units the operator scan steps over and ends in a digit (`LitOk`:
+unsigned decimal literals); between two operands stands one of the sixteen binary operators; the
+last operand carries `NoOp`; no list (top or nested) is a single parenthesised group (`lonePar`:
+the scanner unwraps `((e))` and a lone `(e)` — observation in notes/design-expr.md).  For every such
+list, every terminator unit after the text: `parseTop` returns exactly the list. -/
+theorem scan_print_items {R : Type} (cfg : ScanCfg R) (lit : Num R → List Nat) (Pn : Num R → Prop)
+    (hlit : ∀ n, Pn n → LitOk cfg.readNum (lit n) n) (items : List (Item R)) (hp : pokItems Pn items)
+    (hl : ¬ lonePar items) (t : Nat) :
+    parseTop cfg (printItems lit items ++ [t]) 0 (printItems lit items).length = .ok items :=
+  scan_printItems cfg lit Pn hlit items hp hl t
+
+/-- `ScanPrint` for trees: the printed in-order text of a tree (numeric leaves, binary operators,
+parenthesis nodes that do not directly contain another parenthesis node, the tree itself not a
+parenthesis node) scans to `flatten t`; with `evaluate_eq_tree` the value of the scanned list is the
+tree value of `climb (flatten t)`. -/
+theorem scan_print {R : Type} (cfg : ScanCfg R) (lit : Num R → List Nat) (Pn : Num R → Prop)
+    (hlit : ∀ n, Pn n → LitOk cfg.readNum (lit n) n) (t : Tree R) (ht : t.pok Pn) (hnp : ∀ t', t ≠ .paren t')
+    (term : Nat) :
+    parseTop cfg (printItems lit (flatten t) ++ [term]) 0 (printItems lit (flatten t)).length = .ok (flatten t) :=
+  scan_print_tree cfg lit Pn hlit t ht hnp term
+
+/-- non-vacuity: `1 + (2 * 3)` with a reader for the three literals -/
+def rd123 {R : Type} : List Nat → Option (Num R) := fun s =>
+  if s = [49] then some (.nat 1) else if s = [50] then some (.nat 2) else if s = [51] then some (.nat 3) else none
+def lit123 {R : Type} : Num R → List Nat
+  | .nat 1 => [49] | .nat 2 => [50] | .nat 3 => [51] | _ => [48]
+def P123 {R : Type} : Num R → Prop := fun n => n = .nat 1 ∨ n = .nat 2 ∨ n = .nat 3
+theorem lit123_ok {R : Type} : ∀ n : Num R, P123 n → LitOk rd123 (lit123 n) n := by
+  intro n hn
+  rcases hn with h | h | h <;> subst h
+  · exact ⟨by simp [lit123], by intro x hx; simp [lit123] at hx; subst hx; exact ⟨rfl, rfl, by decide⟩,
+      by intro x hx; simp [lit123] at hx; subst hx; decide, rfl⟩
+  · exact ⟨by simp [lit123], by intro x hx; simp [lit123] at hx; subst hx; exact ⟨rfl, rfl, by decide⟩,
+      by intro x hx; simp [lit123] at hx; subst hx; decide, rfl⟩
+  · exact ⟨by simp [lit123], by intro x hx; simp [lit123] at hx; subst hx; exact ⟨rfl, rfl, by decide⟩,
+      by intro x hx; simp [lit123] at hx; subst hx; decide, rfl⟩
+example {R : Type} :
+    let t : Tree R := .bin .add (.leaf (.num (.nat 1))) (.paren (.bin .mul (.leaf (.num (.nat 2))) (.leaf (.num (.nat 3)))))
+    t.pok P123 ∧ (∀ t', t ≠ .paren t') ∧ printItems lit123 (flatten t) = [49, 32, 43, 32, 40, 50, 32, 42, 32, 51, 41] := by
+  refine ⟨?_, ?_, ?_⟩
+  · simp only [Tree.pok, P123, isBinOp]
+    simp
+  · intro t' h; cases h
+  · simp [flatten, flattenGo, printItems, Operand.print, lit123, Op.symbol]; decide
 
 end Qentem.Props.C04
